@@ -209,8 +209,10 @@ def trace (c : Ctx) : List Ev → List (String × String × Nat × Nat)
   tables (driver, `#eval`) and on the number-coded copies of the same tables (the `decide`
   obligations of Props/C15.lean; `code` is the coding). -/
 
-/-- a name as a number: 1, then its bytes, base 256 (the translators use the same coding) -/
-def code (s : String) : Nat := s.toList.foldl (fun a c => a * 256 + c.toNat) 1
+/-- a name as a number: 1, then its (UTF-8) bytes, base 256 (the translators use the same coding; all
+    names are ASCII).  Written over the byte array because that is what the kernel evaluates fastest
+    for a string literal. -/
+def code (s : String) : Nat := s.toUTF8.data.foldl (fun a b => a * 256 + b.toNat) 1
 
 section Contract
 variable {α : Type} [BEq α]
